@@ -145,6 +145,13 @@ def generate(rng):
     if scn['transport'] == 'direct' and rng.random() < 0.25:
         # the application feeds the terminal itself, one byte (or one character) at a time, through process()
         scn['how'] = 'process'
+    elif scn['transport'] == 'direct' and rng.random() < 0.12:
+        # ... or through write_ch(), the entry point for one character of plain text (no escape sequences: in its ground
+        # state the parser hands every character but ESC to write_ch itself, so for such text the two are the same thing)
+        scn['how'] = 'write_ch'
+        scn['tokens'] = [t for t in scn['tokens'] if u'\x1b' not in t] or [u'ab\xe9' if scn['tenc'] == 'utf-8' or scn['mode'] == 'str' else u'ab']
+        scn.pop('truncated', None)
+        scn['cuts'] = []
     scn['maxread'] = rng.choice([1, 2, 3, 7]) if scn['how'] == 'maxread' else 2000
     if rng.random() < 0.004:
         # one very large write (a whole capture file handed over at once) next to small ones: sizes beyond any internal
@@ -256,13 +263,17 @@ def run(scn):
     from .unicode_fam import pieces_of
     if scn['transport'] == 'direct':
         pcs = pieces_of(data, scn.get('cuts', []))
-        if scn.get('how') == 'process':
+        if scn.get('how') in ('process', 'write_ch'):
             pcs = [data[i:i + 1] for i in range(len(data))]
+        if scn.get('how') == 'write_ch' and u'\x1b' in text:
+            raise HarnessError('write_ch is fed plain text only')
         C = mk()
         try:
             for p in pcs:
                 if scn.get('how') == 'process':
                     C.process(p)
+                elif scn.get('how') == 'write_ch':
+                    C.write_ch(p)
                 else:
                     C.write(p)
                 e = check_shape(C, rows, cols)
